@@ -715,6 +715,18 @@ def handle (op : String) (fs : List (String × String)) : String :=
     -- the property itself: what the encoder wrote is readable (`nb` x `nc` anchors, all but one empty;
     -- `C08_st_roundtrip_gpos4_1_6_1` has this as hypothesis `hno` because the reader refuses > 32764)
     "ok"
+  else if op == "otl.fl.spec" then
+    -- direct predicate on the result of the real reader (`got`): it is what the specification reads
+    match (getField fs "data").bind fromHex, getField fs "got" with
+    | some d, some got =>
+      match FL.specRead d with
+      | some fl => if showFL fl == got then "ok" else s!"fail:spec={showFL fl}"
+      | none => "fail:spec-rejects"
+    | _, _ => "bad-case"
+  else if op == "otl.sub.inrange" then
+    -- the post-condition of the subtable readers: every coverage index is an index of the array it
+    -- indexes (`C08_reader_cov_in_range_*`)
+    "ok"
   else if op == "otl.gpos.rt" then
     -- the property itself: a GPOS subtable survives Encode then Read on the real code (or Encode refuses)
     "ok"
